@@ -36,8 +36,27 @@ invalid program per diagnostic site).
                 limit of the repeated construct a rejection is reported when gcc accepts the unit (second oracle);
                 beyond it a located diagnostic is a correct answer.  Only crash / internal error / hang / missing
                 location / assembler rejection are judged (C17 checks the table as a dictionary).
+  grids         construct families enumerated as full products of stated alphabets (GRID_FAMILIES, see the comment there):
+                call_shapes - callee definition + call + variadic call for every parameter list int^i double^d tail,
+                (i, d) over every count of used integer / SSE argument registers (quick {0,4,5,6,7} x {0,7,8,9}, thorough 9 x 11),
+                tail = every sequence of <= 2 types (thorough: <= 3 after 16 prefixes) over 12 argument types {int,
+                double, long double, structs of 1, 8, 16 (int/int, int/SSE, SSE/SSE), 24, 40 bytes, struct { long double },
+                struct { long double; int }}, return types int / long double / two-register struct / memory struct:
+                every register-exhaustion position x every parity of stack words before a 16-byte aligned stack argument;
+                pp_selfref - macro names reappearing during their own replacement (object-/function-like, direct /
+                chains of 2, 3, 4, 8, spelled / result of ## / operand of #, in declarators, expressions, #if, -D);
+                pp_skipped_expr - 19 positions in which a controlling expression must not be evaluated (#elif after a
+                taken group of every kind, conditionals nested in skipped groups of every kind) x 24 (thorough 87)
+                expressions that cannot be evaluated;
+                atomic_ops - 24 object types of sizes 1, 2, 3, 4, 5, 8, 12, 16, 24 (integer, _Bool, floating incl. long
+                double, pointer, struct, union) x 4 (thorough 7) ways to reach the object x every compound assignment,
+                ++/--, load/store, the two builtins, the <stdatomic.h> macros.
+                Units expected valid that chibicc rejects are reported when gcc accepts them; for the others (invalid,
+                or outside the supported language: atomic read-modify-write on objects that are not scalars of 1, 2, 4,
+                8 bytes) only (i)-(iii) are judged.
 Variants are de-duplicated by content.  Each one is run as `chibicc -cc1 -cc1-input v.c -cc1-output v.s v.c` by
-harness/c13_run.c under RLIMIT_CPU 5 s / RLIMIT_AS 2 GB / 60 s wall, observed from outside with ptrace.
+harness/c13_run.c under RLIMIT_CPU 5 s / RLIMIT_AS 2 GB / 60 s wall, observed from outside with ptrace (wait status,
+stack at a fatal signal, peak resident set).
 
 Verdicts (nothing is concluded from gcc accepting or rejecting an edited program):
   (i)   no death by signal, no `internal error`, no hang (a timeout is re-run alone with 10x limits; only a run
@@ -48,9 +67,16 @@ Verdicts (nothing is concluded from gcc accepting or rejecting an edited program
         1..(number of lines + 1) of it (the line after the last one is where chibicc places end-of-file), or a
         `<pseudo-file>`/command-line message when options are involved
   (iv)  every valid seed is accepted under every option set
+  (v)   memory: a death by signal with the peak resident set at the address-space limit is re-run (smallest inputs of its
+        class, one at a time) with 2x the memory; exhausting that too (or 10x the CPU time) is `memory-exhausted` - the
+        compiler's memory use is unbounded for the input - named by the outermost frames like a hang.  After 3 timeouts /
+        memory exhaustions inside one work item the rest of the item runs under 1 s / 128 MB and cases hitting those
+        limits get no verdict, so that a defective compiler costs a bounded amount of the machine.  The runner gives every
+        case 256 MB first; only a case that dies from a signal there is re-run with the 2 GB limit, holding a machine-wide
+        lock (/tmp/c13_heavy.lock), as are the wide re-runs: at most one compiler process above 256 MB exists at any time.
 Signature: C13|<class>|<site>; for signals the site is the innermost chibicc function on the stack at the moment of
 the signal (frame-pointer walk by the ptrace observer, named through `nm`), so that all inputs reaching one faulty
-statement share one signature.
+statement share one signature.  Anomalies of grid units carry the family as construct class (`|in:<family>`).
 """
 import bisect, hashlib, os, re, shutil, subprocess, sys
 
@@ -59,12 +85,26 @@ if __name__ == "__main__":
 from vlib import core
 
 LEVEL = "exploration"
-BUDGET = {"quick": 900, "thorough": 3600}
+BUDGET = {"quick": 2400, "thorough": 5400}      # deadlines, not targets: the shared machine runs at load 300-500
 
 SEEDS = os.path.join(core.VERIF, "harness", "c13_seeds")
 RUNNER_SRC = os.path.join(core.VERIF, "harness", "c13_run.c")
 CPU_S, WALL_S, MEM_MB = 5, 60, 2048      # first pass; the wall limit only guards against a blocked process
 CONFIRM_CPU_S, CONFIRM_WALL_S = 50, 400   # a hang is declared only when 10x the CPU limit is really consumed
+# Resource exhaustion.  A run whose peak resident set reaches half of its address-space limit when it dies from a signal
+# died because memory ran out (a failed allocation used unchecked), not from a wild access: it is re-run with
+# MEMX_FACTOR x the memory; if it exhausts that too (or 10x the CPU time) the compiler's memory use is unbounded for this
+# input: class `memory-exhausted`, named like a hang by the outermost frames.  To keep a defective compiler from hurting
+# the (shared) machine: after HEAVY_MAX runs of one work item ended in a timeout or in memory exhaustion, the remaining
+# cases of the item run under the SCREEN limits; those that hit a SCREEN limit are counted (`resource_cases_not_judged`),
+# all others are judged as usual.  The wide re-runs are made one at a time, for the MEMX_SAMPLES smallest inputs of every
+# preliminary signature.
+HEAVY_MAX, SCREEN_CPU_S, SCREEN_MEM_MB = 3, 1, 128
+MEMX_FACTOR, MEMX_SAMPLES = 2, 2
+
+
+def mem_exhausted(rss_kb, mem_mb):
+    return rss_kb >= mem_mb * 512
 
 # ---------------------------------------------------------------------------------------------------------
 # alphabets (explicit bounds of the enumeration)
@@ -537,6 +577,306 @@ REP2_FAMILIES = [
 ]
 
 
+# ---------------------------------------------------------------------------------------------------------
+# GRID dimension: construct families that are enumerated as a full product of stated alphabets.  Every family is a
+# function tier -> [(case id, unit text, options, expectation)]; expectation "valid": the unit is a valid program of the
+# supported language (a rejection is reported when gcc accepts the unit too - two oracles); "any": the unit may be
+# invalid or outside the supported language (a located diagnostic is a correct answer); crash / internal error / hang /
+# memory exhaustion / missing location / assembler rejection are judged for all of them.
+#   call_shapes      parameter/argument lists  int^i double^d tail : (i, d) in CALL_PREFIX[tier] - every number of used
+#                    general-purpose (0..6, and beyond) and SSE (0..8, and beyond) argument registers - followed by every
+#                    tail of at most CALL_TAIL_MAX[tier] types over CALL_TYPES (int, double, long double, structs of
+#                    1/8/16/24/40 bytes of every register class, structs holding a long double with and without a
+#                    trailing member), so that every argument class meets every register-exhaustion position and every
+#                    parity of 8-byte stack words in front of a 16-byte aligned stack argument; return types CALL_RET
+#                    (a memory-class return consumes one more register).  Each unit holds the callee's definition, a call
+#                    and a call of a variadic function with the same argument list.  Lengths 0..19.
+#   pp_selfref       macros whose name reappears while they are being replaced: object-like / function-like, directly /
+#                    through chains of 2, 3, 4, 8 macros, spelled out / as the result of ## / as operand of #, as a
+#                    declarator, inside expressions, in #if / #elif, from -D
+#   pp_skipped_expr  SKIP_CONTEXTS (every position in which a controlling expression is not evaluated: #elif after a
+#                    taken #if / #ifdef / #ifndef / #elif group, repeated, nested #if / #elif / #ifdef inside skipped groups
+#                    of every kind) x SKIP_EXPRS (expressions that cannot be evaluated: division by zero, empty,
+#                    unbalanced, unknown function-like feature tests, strings, floating constants, stray punctuators,
+#                    overflowing constants, unterminated macro invocations ...)
+#   atomic_ops       ATOMIC_TYPES (scalar, pointer, struct and union types of sizes 1, 2, 3, 4, 5, 8, 12, 16, 24, incl.
+#                    _Bool, floating types, long double) x ATOMIC_PLACES (global, _Atomic(T), local, through a pointer,
+#                    member, element, not atomic-qualified) x operations (every compound assignment, ++/-- prefix and
+#                    postfix, load/store, value of an assignment, __builtin_compare_and_swap,
+#                    __builtin_atomic_exchange used and unused, the <stdatomic.h> macros)
+
+# ---- call shapes ---------------------------------------------------------------------------------------------
+# (code, declaration needed, C type, initializer of a local of that type, expression reading a parameter p as long)
+CALL_TYPES = [
+    ("i", "", "int", "1", "p"),
+    ("d", "", "double", "1.5", "(long)p"),
+    ("x", "", "long double", "2.5L", "(long)p"),
+    ("c1", "struct C1 { char c; };", "struct C1", "{1}", "p.c"),
+    ("s8", "struct S8 { int a; float b; };", "struct S8", "{1, 2}", "p.a + (long)p.b"),
+    ("s16", "struct S16 { long a, b; };", "struct S16", "{1, 2}", "p.a + p.b"),
+    ("m16", "struct M16 { long a; double b; };", "struct M16", "{1, 2}", "p.a + (long)p.b"),
+    ("d16", "struct D16 { double a, b; };", "struct D16", "{1, 2}", "(long)(p.a + p.b)"),
+    ("s24", "struct S24 { long a, b, c; };", "struct S24", "{1, 2, 3}", "p.a + p.c"),
+    ("s40", "struct S40 { long a[5]; };", "struct S40", "{{1, 2, 3, 4, 5}}", "p.a[0] + p.a[4]"),
+    ("sx", "struct SX { long double v; };", "struct SX", "{3}", "(long)p.v"),
+    ("sxi", "struct SXI { long double v; int i; };", "struct SXI", "{3, 4}", "(long)p.v + p.i"),
+]
+CALL_TYPE = dict((t[0], t) for t in CALL_TYPES)
+CALL_RET = {"quick": ["i"], "thorough": ["i", "x", "m16", "s24"]}    # + "s24" for one-element tails in quick
+CALL_PREFIX = {"quick": [(i, d) for i in (0, 4, 5, 6, 7) for d in (0, 7, 8, 9)],
+               "thorough": [(i, d) for i in range(9) for d in range(11)]}
+CALL_TAIL_MAX = {"quick": 2, "thorough": 2}
+CALL_PREFIX3 = [(i, d) for i in (0, 5, 6, 7) for d in (0, 7, 8, 9)]     # thorough: tails of 3 types after these prefixes
+
+
+def call_unit(ret, types):
+    """one callee definition, one caller and one variadic call with the parameter/argument type list `types`"""
+    used = []
+    for c in [ret] + list(types):
+        if CALL_TYPE[c][1] and CALL_TYPE[c][1] not in used:
+            used.append(CALL_TYPE[c][1])
+    rt = CALL_TYPE[ret]
+    params = ", ".join("%s p%d" % (CALL_TYPE[c][2], k) for k, c in enumerate(types)) or "void"
+    reads = "".join("  r += %s;\n" % CALL_TYPE[c][4].replace("p", "p%d" % k) for k, c in enumerate(types))
+    locs = "".join("  %s a%d = %s;\n" % (CALL_TYPE[c][2], k, CALL_TYPE[c][3]) for k, c in enumerate(types))
+    args = ", ".join("a%d" % k for k in range(len(types)))
+    if ret == "i":
+        retn, use = "  return r;\n", "callee(%s)" % args
+    else:
+        retn = "  %s v = %s;\n  return v;\n" % (rt[2], rt[3])
+        use = rt[4].replace("p", "callee(%s)" % args) if rt[1] else "(long)callee(%s)" % args
+    return ("%s\n%s callee(%s) {\n  long r = 0;\n%s%s}\nlong vf(int n, ...);\nlong caller(void) {\n%s  long r = %s;\n"
+            "  return r + vf(%s);\n}\n"
+            % ("\n".join(used), rt[2], params, reads, retn, locs, use, ", ".join([str(len(types))] + ["a%d" % k for k in range(len(types))])))
+
+
+def _tails(n):
+    codes = [t[0] for t in CALL_TYPES]
+    out = [()]
+    for _ in range(n):
+        out = [o + (c,) for o in out for c in codes]
+    return out
+
+
+def grid_call_shapes(tier):
+    cases, seen = [], set()
+
+    def add(ret, i, d, tail):
+        cid = "%s_i%dd%d_%s" % (ret, i, d, "-".join(tail) or "none")
+        if cid not in seen:
+            seen.add(cid)
+            cases.append((cid, call_unit(ret, ("i",) * i + ("d",) * d + tail), [], "valid"))
+    for i, d in CALL_PREFIX[tier]:
+        for n in range(CALL_TAIL_MAX[tier] + 1):
+            for tail in _tails(n):
+                for ret in CALL_RET[tier]:
+                    if n <= 1 or ret == "i" or tier == "thorough" and ret == "s24":
+                        add(ret, i, d, tail)
+                if n <= 1:
+                    add("s24", i, d, tail)
+    if tier == "thorough":
+        for i, d in CALL_PREFIX3:
+            for tail in _tails(3):
+                add("i", i, d, tail)
+    return cases
+
+
+# ---- preprocessor: macro names that reappear in their own replacement (directly, through ## results, as # operands) --
+def grid_pp_selfref(tier):
+    cases = []
+
+    def add(cid, text, expect="valid", opts=()):
+        cases.append((cid, text, list(opts), expect))
+    # object-like, direct: the replacement list spells the macro's own name (as written, or as the result of ##)
+    #   ... where the result is the name alone, the macro is defined first and the name is then declared and used
+    for k, body in enumerate(["foo", "fo ## o", "f ## o ## o", "f ## oo", "foo ## foo", "fo ## o ## fo ## o"]):
+        name = "foofoo" if k >= 4 else "foo"
+        add("obj_direct_name%d" % k, "#define foo %s\nint foo = 3;\nint g(void) { return sizeof(%s) + foo; }\n" % (body, name))
+    #   ... where it is part of an expression, the object is declared before the macro is defined
+    for k, body in enumerate(["(foo)", "(fo ## o)", "fo ## o + fo ## o", "- fo ## o", "fo ## o + 1", "1 + fo ## o",
+                              "(foo + fo ## o)", "f ## o ## o * f ## oo"]):
+        add("obj_direct_expr%d" % k, "int foo;\n#define foo %s\nint g(void) { return foo != 0; }\n" % body)
+    # object-like, indirect chains of length n whose last link spells / pastes the first name (and the second one)
+    names = ("x1", "y2", "z3", "w4", "v5", "u6", "t7", "s8")
+    for n in (2, 3, 4, 8):
+        defs = "".join("#define %s %s\n" % (names[j], names[j + 1]) for j in range(n - 1))
+        for k, last in enumerate(["x1", "x ## 1", "(x ## 1)", "x ## 1 + y ## 2", "x ## 1 + x1 + y2"]):
+            if k < 2:
+                add("obj_chain%d_%d" % (n, k), defs + "#define %s %s\nint x1 = 5;\nint g(void) { return x1; }\n" % (names[n - 1], last))
+            else:
+                add("obj_chain%d_%d" % (n, k), "int x1 = 5, y2 = 6;\n" + defs + "#define %s %s\nint g(void) { return x1; }\n" % (names[n - 1], last))
+    add("obj_chain_defined_in_reverse", "#define y1 x ## 1\n#define x1 y1\nint x1 = 5;\n")
+    add("obj_mutual", "#define x1 y ## 1\n#define y1 x ## 1\nint x1 = 5, y1 = 6;\n")
+    # the use inside #if / #elif (identifiers that remain become 0)
+    add("obj_direct_in_if", "#define foo fo ## o\n#if foo\n#error foo\n#endif\nint zz;\n")
+    add("obj_chain_in_if", "#define x1 y1\n#define y1 x ## 1\n#if x1 || y1\n#error x1\n#endif\nint zz;\n")
+    add("obj_direct_in_elif", "#define foo fo ## o\n#if 0\n#elif foo\n#error foo\n#endif\nint zz;\n")
+    add("obj_direct_in_include", "#define c13_inc c13_ ## inc\n#define H <c13_inc.h>\n#include H\nint zz = INC_VAL;\n", "any")
+    # function-like, direct
+    for k, (params, body, decl) in enumerate([
+            ("a", "fx(a)", "int fx(int);"), ("a", "f ## x(a)", "int fx(int);"), ("a", "a ## fx(a)", "int fx();"),
+            ("a", "fx ## a(int)", "int fx();"), ("a, b", "a ## b(int)", "int fx(f, x);"),
+            ("...", "f ## x(__VA_ARGS__)", "int fx(int, int);"), ("a", "fx", "int fx(0) = 1;"), ("a", "f ## x", "int fx(0) = 1;")]):
+        add("fn_direct_name%d" % k, "#define fx(%s) %s\n%s\n" % (params, body, decl))
+    for k, (params, body, use) in enumerate([
+            ("a", "f ## x (a) + f ## x (a)", "fx(1)"), ("a", "(fx)(a)", "fx(1)"), ("a", "(f ## x)(a)", "fx(2)"),
+            ("a", "a(1) + a ## x(2)", "fx(f)"), ("a", "(a)", "fx(fx(fx(1)))"), ("a", "f ## x(f ## x(a))", "fx(fx(1))"),
+            ("a, b", "a ## b(b ## a(1))", "fx(f, x)")]):
+        add("fn_direct_expr%d" % k, "int f(int), fx(int), xf(int);\n#define fx(%s) %s\nint g(void) { return %s; }\n" % (params, body, use))
+    # function-like, indirect; an object-like macro reappearing through a function-like one and the reverse
+    add("fn_chain2", "#define a1(x) b1(x)\n#define b1(x) a ## 1(x)\nint a1(int);\n")
+    add("fn_chain3", "int a1(int), b1(int);\n#define a1(x) b1(x)\n#define b1(x) c1(x)\n#define c1(x) a ## 1(x) + b ## 1(x)\n"
+        "int g(void) { return a1(1); }\n")
+    add("fn_chain_arg", "#define a1(x) x\n#define b1 a ## 1(b ## 1)\nint b1 = 2;\n")
+    add("obj_via_fn", "#define obj fn(ob, j)\n#define fn(a, b) a ## b\nint obj = 1;\n")
+    add("obj_via_fn_arg", "int obj = 1;\n#define obj id(obj) + id(ob ## j)\n#define id(a) a\nint g(void) { return obj; }\n")
+    add("fn_via_obj", "#define fn(a) obj(a)\n#define obj f ## n\nint fn(int);\n")
+    add("fn_self_without_parens", "#define fx(a) f ## x\nint g(void) { int fx = 1; return fx; }\n")
+    # the operand and the result of #
+    add("str_self", "#define str(x) #x\nchar *s = str(str(1));\n")
+    add("str_self_indirect", "#define str(x) #x\n#define xstr(x) str(x)\n#define foo xstr(foo)\nchar *s = foo;\n")
+    add("str_of_paste", "#define foo str(fo ## o)\n#define str(x) #x\nchar *s = foo;\n")
+    add("str_paste_self", "char *sfoo(char *);\n#define sfoo(x) s ## foo(#x)\nchar *g(void) { return sfoo(sfoo(1)); }\n")
+    add("str_empty_paste", "#define e(x) x ## x\n#define foo e() foo e()\nint foo = 1;\n")
+    add("str_va_self", "int v(char *);\n#define v(...) v ## __VA_ARGS__ (#__VA_ARGS__)\nint g(void) { return v(); }\n", "any")
+    # undefined and redefined in between; from the command line; invalid uses must be diagnosed, not looped on
+    add("undef_between", "#define foo fo ## o\nint foo = 1;\n#undef foo\n#define foo b ## ar\nint foo = 2;\n")
+    add("cmdline_self", "int foo = 1, bar = 2;\nint g(void) { return foo + bar; }\n", "valid", ["-Dfoo=fo##o", "-Dbar=ba##r", "-DF(x)=F##x"])
+    add("invalid_undeclared", "#define foo fo ## o\nint x = foo;\n", "any")
+    add("invalid_chain_undeclared", "#define x1 y1\n#define y1 x ## 1\nint g(void) { return x1; }\n", "any")
+    add("invalid_paste_result", "#define foo fo ## o ## +\nint foo;\n", "any")
+    add("invalid_fn_unterminated", "#define fx(a) f ## x(a\nint fx(1);\n", "any")
+    add("invalid_fn_undeclared", "#define fx(a) f ## x(a) + x ## f(a)\nint g(void) { return fx(1); }\n", "any")
+    return cases
+
+
+# ---- preprocessor: controlling expressions in positions where they are not evaluated ------------------------------
+SKIP_EXPRS = ["1/0", "1%0", "100/N", "(1/0)", "0 && 1/0", "", "(", ")", "(1", "1)", "1 +", "+", "-", "!", "~", "* 2", "1 2", "a b", "1 ? 2", "1 :",
+              "? :", "F(1)", "F(1, 5) >= 2", "F(", "__has_include(<c13_none.h>)", "__has_include(\"c13_none.h\")", "__has_include(",
+              "__has_feature(x)", "__has_attribute(packed)", "defined", "defined(", "defined(N", "defined()", "defined(1)", "defined N N",
+              "\"s\"", "\"s\" == \"s\"", "1.0", "1.5 > 1", "0x", "1e", "08", "1u2", "18446744073709551616", "99999999999999999999999 > 1",
+              "= 1", "1 = 1", "N++", "N = 2", "sizeof(int)", "(int)1", "1, 2", ",", ";", "{", "}", "[0]", "@", "$", "`", "#", "##", "1 ## 2",
+              "__VA_ARGS__", "M(", "M(1", "M()", "M(1)(", "<stdio.h>", "include <stdio.h>", "1 // 2", "1 /* 2 */ 3", "0x7fffffffffffffff + 1",
+              "1 << 100", "-9223372036854775807 - 2", "'ab'", "L'\\400'", "u8'a'", "1 \\ 2", "if", "else", "endif", "elif 1", "defined defined"]
+SKIP_EXPRS_QUICK = ["1/0", "100/N", "", "(", ")", "1 +", "F(1)", "__has_include(<c13_none.h>)", "__has_feature(x)", "defined", "defined(",
+                    "\"s\"", "1.0", "0x", "1 2", "= 1", "@", "#", "M(", "18446744073709551616", "'ab'", "1 ? 2", ",", "sizeof(int)"]
+# %s = the expression; every context defines `int zz;` exactly once, so the unit is a valid program whatever the expression is
+SKIP_CONTEXTS = [
+    ("elif_after_if1", "#if 1\nint zz;\n#elif %s\nint zz = ;\n#endif\n"),
+    ("elif_after_if_expr", "#if N == 0 && defined(N)\nint zz;\n#elif %s\n#else\n#error else\n#endif\n"),
+    ("elif_after_ifdef", "#ifdef N\nint zz;\n#elif %s\n#endif\n"),
+    ("elif_after_ifndef", "#ifndef U\nint zz;\n#elif %s\n#else\n#endif\n"),
+    ("elif_after_taken_elif", "#if 0\n#elif 1\nint zz;\n#elif %s\n#endif\n"),
+    ("elif_twice_after_taken", "#if 1\nint zz;\n#elif %s\n#elif %s\n#else\n#endif\n"),
+    ("elif_after_ifdef_elif", "#ifdef U\n#elif !defined(U)\nint zz;\n#elif %s\n#else\n#endif\n"),
+    ("elif_after_empty_taken_group", "#if 1\n#elif %s\n#endif\nint zz;\n"),
+    ("if_in_skipped_if0", "#if 0\n#if %s\n#endif\n#endif\nint zz;\n"),
+    ("elif_in_skipped_if0", "#if 0\n#if 1\n#elif %s\n#else\n#endif\n#endif\nint zz;\n"),
+    ("if_in_skipped_else", "#if 1\nint zz;\n#else\n#if %s\n#elif %s\n#endif\n#endif\n"),
+    ("if_in_skipped_elif_group", "#if 1\nint zz;\n#elif 0\n#if %s\n#endif\n#endif\n"),
+    ("if_in_skipped_ifdef", "#ifdef U\n#if %s\n#else\n#endif\n#endif\nint zz;\n"),
+    ("if_in_untaken_then_taken_else", "#if 0\n#if %s\n#endif\n#else\nint zz;\n#endif\n"),
+    ("if_in_skipped_after_taken", "#if 1\nint zz;\n#elif 1\n#if %s\n#elif %s\n#endif\n#endif\n"),
+    ("ifdef_in_skipped", "#if 0\n#ifdef %s\n#endif\n#ifndef %s\n#endif\n#endif\nint zz;\n"),
+    ("if_deep_in_skipped", "#if 0\n#if 0\n#if %s\n#endif\n#elif %s\n#endif\n#endif\nint zz;\n"),
+    ("elif_in_function_body", "int f(void) {\n#if 1\n  return 1;\n#elif %s\n  return 2;\n#endif\n}\nint zz;\n"),
+    ("elif_in_included_file", "#define C13_SKIP_EXPR %s\n#if 1\nint zz;\n#elif C13_SKIP_EXPR\n#endif\n"),
+]
+
+
+def grid_pp_skipped_expr(tier):
+    exprs = SKIP_EXPRS_QUICK if tier == "quick" else SKIP_EXPRS
+    cases = []
+    for cname, ctx_ in SKIP_CONTEXTS:
+        for k, e in enumerate(exprs):
+            if cname == "elif_in_included_file" and ("#" in e or e.lstrip().startswith("(") or "//" in e or "/*" in e):
+                continue      # a replacement list starting with ( would define a function-like macro ...
+            body = ctx_.replace("%s", e)
+            cases.append(("%s_e%d" % (cname, SKIP_EXPRS.index(e)), "#define N 0\n#define M(x) x\n" + body, [], "valid"))
+    return cases
+
+
+# ---- atomic operations over object types of every size ---------------------------------------------------------
+# (code, declarations, type, size, class) class: i integer, b _Bool, f floating, p pointer, s struct/union
+ATOMIC_TYPES = [
+    ("bool", "", "_Bool", 1, "b"), ("char", "", "char", 1, "i"), ("uchar", "", "unsigned char", 1, "i"), ("short", "", "short", 2, "i"),
+    ("int", "", "int", 4, "i"), ("uint", "", "unsigned", 4, "i"), ("long", "", "long", 8, "i"), ("enum", "enum E { E0, E1 };", "enum E", 4, "i"),
+    ("float", "", "float", 4, "f"), ("double", "", "double", 8, "f"), ("ldouble", "", "long double", 16, "f"),
+    ("ptr", "", "int *", 8, "p"), ("fnptr", "typedef int (*FP)(void);", "FP", 8, "p"),
+    ("s1", "struct A1 { char c; };", "struct A1", 1, "s"), ("s2", "struct A2 { char c[2]; };", "struct A2", 2, "s"),
+    ("s3", "struct A3 { char c[3]; };", "struct A3", 3, "s"), ("s4", "struct A4 { int a; };", "struct A4", 4, "s"),
+    ("s5", "struct A5 { char c[5]; };", "struct A5", 5, "s"), ("s8", "struct A8 { int a; float b; };", "struct A8", 8, "s"),
+    ("s12", "struct A12 { int a[3]; };", "struct A12", 12, "s"), ("s16", "struct A16 { long a, b; };", "struct A16", 16, "s"),
+    ("sld", "struct ALD { long double v; };", "struct ALD", 16, "s"), ("s24", "struct A24 { long a[3]; };", "struct A24", 24, "s"),
+    ("u8", "union AU { int a; double d; };", "union AU", 8, "s"), ("arr", "", "ARR", 8, "a"),
+]
+ATOMIC_COMPOUND = ["+=", "-=", "*=", "/=", "%=", "&=", "|=", "^=", "<<=", ">>="]
+# how the object is declared / reached
+ATOMIC_PLACES = [
+    ("global", "_Atomic %(T)s a;", "", "a"),
+    ("global_paren", "_Atomic(%(T)s) a;", "", "a"),
+    ("local", "", "  _Atomic %(T)s a = z;\n", "a"),
+    ("pointer", "_Atomic %(T)s *q;", "", "(*q)"),
+    ("member", "struct W { char pad; _Atomic %(T)s m; } w;", "", "w.m"),
+    ("element", "_Atomic %(T)s v[3];", "", "v[k]"),
+    ("plain", "%(T)s a;", "", "a"),             # not atomic-qualified: the builtins / macros still apply
+]
+
+
+def grid_atomic_ops(tier):
+    cases = []
+    places = ATOMIC_PLACES if tier == "thorough" else [p for p in ATOMIC_PLACES if p[0] in ("global", "local", "pointer", "plain")]
+    for code, decl, T, size, cls in ATOMIC_TYPES:
+        if cls == "a":
+            continue
+        for pname, gdecl, ldecl, lv in places:
+            ops = []
+            atomic = pname != "plain"
+            if atomic:
+                ops += [("asg" + str(k), "%s %s y;" % (lv, op)) for k, op in enumerate(ATOMIC_COMPOUND)]
+                ops += [("preinc", "++%s;" % lv), ("predec", "--%s;" % lv), ("postinc", "r = %s++ != 0;" % lv if cls != "s" else "%s++;" % lv),
+                        ("postdec", "%s--;" % lv), ("load_store", "%s = y; z = %s;" % (lv, lv)),
+                        ("asg_value", "z = (%s += y);" % lv if cls != "s" else "z = (%s = y);" % lv)]
+            ops += [("cas", "r = __builtin_compare_and_swap(&%s, &z, y);" % lv),
+                    ("exch", "z = __builtin_atomic_exchange(&%s, y);" % lv),
+                    ("exch_unused", "__builtin_atomic_exchange(&%s, y);" % lv)]
+            if pname in ("global", "plain", "pointer"):
+                ops += [("std_fetch_add", "z = atomic_fetch_add(&%s, y);" % lv), ("std_fetch_and", "z = atomic_fetch_and(&%s, y);" % lv),
+                        ("std_exchange", "z = atomic_exchange(&%s, y);" % lv),
+                        ("std_cas_strong", "r = atomic_compare_exchange_strong(&%s, &z, y);" % lv),
+                        ("std_load_store", "atomic_store(&%s, y); z = atomic_load(&%s);" % (lv, lv)),
+                        ("std_init", "atomic_init(&%s, y);" % lv)]
+            for oname, stmt in ops:
+                std = oname.startswith("std_")
+                if std and not atomic and tier == "quick":
+                    continue
+                # which units lie in the supported language: scalar objects of 1, 2, 4 or 8 bytes, with an operator that
+                # applies to the type class; everything else may be rejected (with a located diagnostic)
+                m = {"asg0": "ifbp", "asg1": "ifbp", "asg2": "ifb", "asg3": "ifb", "preinc": "ifbp", "predec": "ifbp", "postinc": "ifbp",
+                     "postdec": "ifbp", "load_store": "ifbps", "asg_value": "ifbps", "cas": "ifbp", "exch": "ifbp", "exch_unused": "ifbp",
+                     "std_fetch_add": "ip", "std_fetch_and": "i", "std_exchange": "ifbp", "std_cas_strong": "ifbp", "std_load_store": "ifbp",
+                     "std_init": "ifbp"}.get(oname, "ib")
+                ok = cls in m and size in (1, 2, 4, 8)
+                if oname in ("load_store", "asg_value") and cls == "s":
+                    ok = True                                  # plain assignment of any size
+                if std and not atomic:
+                    ok = False                                 # C11 wants an atomic object here; gcc rejects
+                ytype = "long" if cls == "p" and oname in ("asg0", "asg1", "std_fetch_add", "asg_value") else T
+                if oname in ("asg8", "asg9") and cls in "ib":
+                    ytype = "int"
+                text = ("%s%s\n%s\nint k;\nint f(%s y0) {\n  int r = 0;\n  %s y = y0;\n  %s z = %s;\n%s  %s\n  return r;\n}\n"
+                        % ("#include <stdatomic.h>\n" if std else "", decl, gdecl % {"T": T}, ytype, ytype, T,
+                           "y" if ytype == T else ("{0}" if cls == "s" else "0"), ldecl % {"T": T}, stmt))
+                cases.append(("%s_%s_%s" % (code, pname, oname), text, [], "valid" if ok else "any"))
+    return cases
+
+
+GRID_FAMILIES = [("call_shapes", grid_call_shapes), ("pp_selfref", grid_pp_selfref), ("pp_skipped_expr", grid_pp_skipped_expr),
+                 ("atomic_ops", grid_atomic_ops)]
+
+GRID_CHUNK = 500      # cases per work item
+
+
 def rep_case(fam, *ns):
     """-> (bytes, opts)"""
     r = fam[2](*ns)
@@ -587,8 +927,8 @@ def build_runner(workdir):
     return exe
 
 
-def run_batch(runner, chibicc, wd, cases, asmdir="-", cpu=CPU_S, wall=WALL_S, mem=MEM_MB, trace=1):
-    """cases: [(id, bytes, [opts])] -> [(id, status, err bytes, asmhash, asmnew, trace text)]"""
+def run_batch(runner, chibicc, wd, cases, asmdir="-", cpu=CPU_S, wall=WALL_S, mem=MEM_MB, trace=1, throttle=False):
+    """cases: [(id, bytes, [opts])] -> [(id, status, err bytes, asmhash, asmnew, trace text, peak rss KB, screened)]"""
     parts = []
     for cid, data, opts in cases:
         parts.append(("R %s %d %d\n" % (cid, len(data), len(opts))).encode())
@@ -596,7 +936,8 @@ def run_batch(runner, chibicc, wd, cases, asmdir="-", cpu=CPU_S, wall=WALL_S, me
             parts.append(o.encode() + b"\n")
         parts.append(data)
         parts.append(b"\n")
-    p = subprocess.run([runner, chibicc, str(trace), str(cpu), str(wall), str(mem), asmdir], input=b"".join(parts),
+    extra = [str(HEAVY_MAX), str(SCREEN_CPU_S), str(SCREEN_MEM_MB)] if throttle else []
+    p = subprocess.run([runner, chibicc, str(trace), str(cpu), str(wall), str(mem), asmdir] + extra, input=b"".join(parts),
                        stdout=subprocess.PIPE, stderr=subprocess.PIPE, cwd=wd)
     if p.returncode != 0:
         raise core.HarnessError("c13_run failed rc=%s: %s" % (p.returncode, p.stderr[-500:]))
@@ -604,7 +945,7 @@ def run_batch(runner, chibicc, wd, cases, asmdir="-", cpu=CPU_S, wall=WALL_S, me
     while pos < len(out):
         nl = out.index(b"\n", pos)
         f = out[pos:nl].split(b" ")
-        if f[0] != b"S" or len(f) != 7:
+        if f[0] != b"S" or len(f) != 9:
             raise core.HarnessError("c13_run protocol error: %r" % out[pos:nl + 1])
         errlen, trlen = int(f[3]), int(f[6])
         pos = nl + 1
@@ -612,7 +953,7 @@ def run_batch(runner, chibicc, wd, cases, asmdir="-", cpu=CPU_S, wall=WALL_S, me
         pos += errlen
         tr = out[pos:pos + trlen].decode()
         pos += trlen
-        res.append((f[1].decode(), f[2].decode(), err, f[4].decode(), f[5] == b"1", tr))
+        res.append((f[1].decode(), f[2].decode(), err, f[4].decode(), f[5] == b"1", tr, int(f[7]), f[8] == b"1"))
     if len(res) != len(cases):
         raise core.HarnessError("c13_run returned %d of %d results" % (len(res), len(cases)))
     return res
@@ -746,6 +1087,16 @@ def _work(item):
     elif spec[0] == "probe":
         cases = [("p%d" % i, src, o) for i, o in enumerate(OPTION_PROBES)]
         ngen = len(cases)
+    elif spec[0] == "grid":
+        fam = GRID_FAMILIES[spec[1]]
+        allc = fam[1](spec[2])
+        expect = {}
+        for cid, text, opts, exp in allc[spec[3] * GRID_CHUNK:(spec[3] + 1) * GRID_CHUNK]:
+            data = text.encode()
+            ngen += 1
+            cases.append((cid, data, opts))
+            expect[cid] = exp
+            hashes.append(int.from_bytes(hashlib.blake2b(data + repr(opts).encode(), digest_size=8).digest(), "big"))
     elif spec[0] in ("rep", "rep2"):
         fam = (REP_FAMILIES if spec[0] == "rep" else REP2_FAMILIES)[spec[1]]
         for ns in rep_points(spec[0], fam[0], spec[2]):
@@ -762,15 +1113,22 @@ def _work(item):
             seen.add(h)
             hashes.append(int.from_bytes(h, "big"))
             cases.append((vid, data, []))
-    res = run_batch(runner, chibicc, wd, cases, asmdir) if cases else []
+    res = run_batch(runner, chibicc, wd, cases, asmdir, throttle=True) if cases else []
     counts = {"accepted": 0, "rejected": 0, "crash": 0, "timeout": 0}
     anomalies, msgs, eof_diag, asm_checked, asm_skipped = [], set(), 0, 0, 0
     rep_judged_valid = rep_ref_rejected = rep_beyond_limit_rejected = 0
-    for (cid, data, opts), (rid, status, err, ah, anew, tr) in zip(cases, res):
+    grid_valid = grid_any = grid_any_rejected = 0
+    not_judged = 0
+    gridname = fam[0] if spec[0] == "grid" else None
+    for (cid, data, opts), (rid, status, err, ah, anew, tr, rss, screened) in zip(cases, res):
         if rid != cid:
             raise core.HarnessError("c13_run result order mismatch")
         outcome, an = judge(status, err, ah, data, opts, wd, loose=spec[0] == "probe")
         counts[outcome] += 1
+        if screened and (outcome == "timeout" or outcome == "crash" and mem_exhausted(rss, SCREEN_MEM_MB)):
+            not_judged += 1                # ran into a screening limit: no verdict (see HEAVY_MAX)
+            continue
+        memx = outcome == "crash" and mem_exhausted(rss, MEM_MB) and "overflow=1" not in tr
         if outcome == "rejected":
             m = re.search(rb"^ *\^ (.*)$", err, re.M)
             if m:
@@ -795,7 +1153,25 @@ def _work(item):
         if an:
             anomalies.append({"seed": name, "valid": valid, "vid": cid, "cls": an[0], "detail": an[1], "data": data,
                               "opts": opts, "err": err[:600].decode("utf-8", "replace"), "trace": tr,
-                              "status": status})
+                              "status": status, "memx": memx, "grid": gridname})
+            if spec[0] == "grid":
+                grid_valid += expect[cid] == "valid"
+                grid_any += expect[cid] != "valid"
+        elif spec[0] == "grid":
+            # units with expectation "valid" are valid programs of the supported language: a rejection (even with a located
+            # diagnostic) is reported, provided gcc accepts the same unit
+            if expect[cid] != "valid":
+                grid_any += 1
+                grid_any_rejected += outcome != "accepted"
+            elif outcome == "accepted":
+                grid_valid += 1
+            elif not gcc_accepts(data, opts, wd):
+                rep_ref_rejected += 1
+            else:
+                grid_valid += 1
+                anomalies.append({"seed": name, "valid": valid, "vid": cid, "cls": "valid-rejected",
+                                  "detail": caret_msg(err), "data": data, "opts": opts,
+                                  "err": err[:600].decode("utf-8", "replace"), "trace": "", "status": status})
         elif valid and spec[0] == "seed" and outcome != "accepted":
             anomalies.append({"seed": name, "valid": valid, "vid": cid, "cls": "valid-rejected",
                               "detail": caret_msg(err), "data": data, "opts": opts,
@@ -819,7 +1195,8 @@ def _work(item):
     return {"name": name, "spec": spec, "generated": ngen, "run": len(cases), "counts": counts, "anomalies": anomalies,
             "msgs": msgs, "hashes": hashes, "eof_diag": eof_diag, "asm_checked": asm_checked,
             "asm_skipped": asm_skipped, "rep_judged_valid": rep_judged_valid, "rep_ref_rejected": rep_ref_rejected,
-            "rep_beyond_limit_rejected": rep_beyond_limit_rejected,
+            "rep_beyond_limit_rejected": rep_beyond_limit_rejected, "grid_valid": grid_valid, "grid_any": grid_any,
+            "grid_any_rejected": grid_any_rejected, "not_judged": not_judged,
             "seed_outcomes": [(c[0], r[1]) for c, r in zip(cases, res)] if spec[0] == "seed" else None}
 
 
@@ -883,21 +1260,40 @@ def crash_site(sym, trace):
     return None, fr[0]
 
 
+def outer_frames(sym, trace):
+    fr = sym.frames(trace)
+    if fr and "main" not in fr and "cc1" not in fr:
+        # the frame walk was cut off inside a deep recursion: which frames it holds depends on the instant of
+        # the signal, so name the recursion cycle (as for a stack overflow) instead of the outermost frames
+        cyc = sorted(set(f for f in fr if fr.count(f) >= 3)) or sorted(set(fr))
+        return "recursion:%s" % "+".join(cyc[:3])
+    outer = [f for f in reversed(fr) if f not in ("main", "cc1", "_start")][:3]
+    return ">".join(outer) or "unknown-site"
+
+
+_GRID_SUFFIX = re.compile(r"\|in:[\w-]+$")
+
+
 def signature(sym, an):
+    """Anomalies of GRID units carry the family as construct class (`|in:<family>`): what such a unit contains is known
+    by construction (e.g. a call_shapes unit holds no GNU empty struct), so a root cause that needs something else is
+    told apart even where the faulting function is the same."""
+    sig = signature0(sym, an)
+    if an.get("grid") and an["cls"] != "valid-rejected":
+        sig += "|in:" + an["grid"]
+    return sig
+
+
+def signature0(sym, an):
     cls, detail = an["cls"], an["detail"]
+    if cls == "memory-exhausted":
+        return "C13|memory-exhausted|%s" % outer_frames(sym, an["trace"])
     if cls == "signal":
         n = int(an["status"][1:])
         over, site = crash_site(sym, an["trace"])
         return "C13|%s|%s" % (over or SIGNAMES.get(n, "SIG%d" % n), site)
     if cls == "timeout":
-        fr = sym.frames(an["trace"])
-        if fr and "main" not in fr and "cc1" not in fr:
-            # the frame walk was cut off inside a deep recursion: which frames it holds depends on the instant of
-            # the signal, so name the recursion cycle (as for a stack overflow) instead of the outermost frames
-            cyc = sorted(set(f for f in fr if fr.count(f) >= 3)) or sorted(set(fr))
-            return "C13|hang|recursion:%s" % "+".join(cyc[:3])
-        outer = [f for f in reversed(fr) if f not in ("main", "cc1", "_start")][:3]
-        return "C13|hang|%s" % (">".join(outer) or "unknown-site")
+        return "C13|hang|%s" % outer_frames(sym, an["trace"])
     if cls == "internal-error":
         return "C13|internal-error|%s:%s" % (detail[0], sym.enclosing_function(detail[0], detail[1]))
     if cls == "valid-rejected":
@@ -928,18 +1324,36 @@ def recapture_stack(sym, runner, chibicc, wd, data, opts, status):
     return None
 
 
+def _memx_confirm(item):
+    """re-run of a case that died at the memory limit, with MEMX_FACTOR x the memory -> (status, trace, runaway?)"""
+    chibicc, runner, wd, data, opts = item
+    prepare_wd(wd)
+    r = run_batch(runner, chibicc, wd, [("c", data, opts)], "-", cpu=CONFIRM_CPU_S, wall=CONFIRM_WALL_S,
+                  mem=MEM_MB * MEMX_FACTOR)[0]
+    runaway = r[1] in ("S24", "S9") or r[1][0] == "S" and mem_exhausted(r[6], MEM_MB * MEMX_FACTOR)
+    shutil.rmtree(wd, ignore_errors=True)
+    return r[1], r[5], runaway
+
+
 def case_signatures(chibicc, tree, runner, wd, data, opts, asmdir, sym=None, confirm=True):
     """Full analysis of one case (used by the replay script): the list of signatures it violates."""
     sym = sym or Symbols(chibicc, tree)
-    cid, status, err, ah, anew, tr = run_batch(runner, chibicc, wd, [("c", data, opts)], asmdir)[0]
+    cid, status, err, ah, anew, tr, rss, scr = run_batch(runner, chibicc, wd, [("c", data, opts)], asmdir)[0]
     outcome, an = judge(status, err, ah, data, opts, wd)
     sigs = []
     if outcome == "timeout" and confirm:
-        cid, status, err, ah, anew, tr = run_batch(runner, chibicc, wd, [("c", data, opts)], asmdir,
-                                                   cpu=CONFIRM_CPU_S, wall=CONFIRM_WALL_S)[0]
+        cid, status, err, ah, anew, tr, rss, scr = run_batch(runner, chibicc, wd, [("c", data, opts)], asmdir,
+                                                             cpu=CONFIRM_CPU_S, wall=CONFIRM_WALL_S)[0]
         outcome, an = judge(status, err, ah, data, opts, wd)
         if status == "T":
             an = None                      # starved, not hung
+        elif outcome == "crash" and mem_exhausted(rss, MEM_MB):
+            an = ("memory-exhausted", "")  # slower than the CPU limit, but it is memory that runs out in the end
+    elif outcome == "crash" and confirm and mem_exhausted(rss, MEM_MB) and "overflow=1" not in tr:
+        r2 = run_batch(runner, chibicc, wd, [("c", data, opts)], "-", cpu=CONFIRM_CPU_S, wall=CONFIRM_WALL_S,
+                       mem=MEM_MB * MEMX_FACTOR)[0]
+        if r2[1] in ("S24", "S9") or r2[1][0] == "S" and mem_exhausted(r2[6], MEM_MB * MEMX_FACTOR):
+            an = ("memory-exhausted", "")
     if outcome == "accepted" and ah != "0" * 16 and b"asm" not in data:
         p = os.path.join(asmdir, ah + ".s")
         if os.path.exists(p) and os.path.getsize(p):
@@ -982,7 +1396,7 @@ def replay_case(d, chibicc, tree):
             return 1 if status != "E0" else 0
         # a death that goes away with 4x the memory is reported as out-of-memory-<signal>; the replay reproduces the
         # death under the standard limit
-        return 1 if want.replace("C13|out-of-memory-", "C13|", 1) in sigs else 0
+        return 1 if _GRID_SUFFIX.sub("", want).replace("C13|out-of-memory-", "C13|", 1) in sigs else 0
     finally:
         shutil.rmtree(tmp, ignore_errors=True)
 
@@ -1021,7 +1435,7 @@ def _confirm(item):
     for f in os.listdir(os.path.join(SEEDS, "aux")):
         shutil.copy(os.path.join(SEEDS, "aux", f), wd)
     r = run_batch(runner, chibicc, wd, [("c", an["data"], an["opts"])], "-", cpu=cpu, wall=wall, mem=mem)[0]
-    return r[1], r[5]
+    return r[1], r[5], r[6]
 
 
 def run(ctx):
@@ -1064,8 +1478,21 @@ def run(ctx):
         items.append(("rep_" + fam[0], True, b"", ("rep", k, tier), 10 ** 6 + len(rep_points("rep", fam[0], tier))))
     for k, fam in enumerate(REP2_FAMILIES):
         items.append(("rep_" + fam[0], True, b"", ("rep2", k, tier), 10 ** 6 + len(rep_points("rep2", fam[0], tier))))
+    grid_sizes = {}
+    for k, fam in enumerate(GRID_FAMILIES):
+        allc = fam[1](tier)
+        if len(set(c[0] for c in allc)) != len(allc):
+            raise core.HarnessError("duplicate case id in grid family " + fam[0])
+        grid_sizes[fam[0]] = len(allc)
+        for j in range((len(allc) + GRID_CHUNK - 1) // GRID_CHUNK):
+            items.append(("grid_" + fam[0], True, b"", ("grid", k, tier, j),
+                          5 * 10 ** 5 + min(GRID_CHUNK, len(allc) - j * GRID_CHUNK)))     # scheduled right after the repetition items
     if len(set(f[0] for f in REP_FAMILIES + REP2_FAMILIES)) != len(REP_FAMILIES) + len(REP2_FAMILIES):
         raise core.HarnessError("duplicate repetition family name")
+    only = os.environ.get("C13_ONLY")      # debugging aid: run only items whose name contains one of these words
+    if only:
+        items = [it for it in items if any(w in it[0] for w in only.split(","))]
+        ctx.incomplete("C13_ONLY=%s: only %d work items were run" % (only, len(items)))
     # largest first for load balance; VERIF_SEED only permutes the order of equal-sized items
     items.sort(key=lambda it: (-it[4], hashlib.sha1((it[0] + repr(it[3]) + str(ctx.seed)).encode()).hexdigest()))
     args = [(ctx.chibicc, runner, os.path.join(ctx.work, "w%d" % i), it[0], it[1], it[2], it[3])
@@ -1124,7 +1551,9 @@ def run(ctx):
     tot = {"accepted": 0, "rejected": 0, "crash": 0, "timeout": 0}
     nrun = ngen = eof_diag = asm_checked = asm_skipped = 0
     distinct, msgs, anomalies = set(), set(), []
-    rep_tot = {"rep_judged_valid": 0, "rep_ref_rejected": 0, "rep_beyond_limit_rejected": 0}
+    rep_tot = {"rep_judged_valid": 0, "rep_ref_rejected": 0, "rep_beyond_limit_rejected": 0, "grid_valid": 0, "grid_any": 0,
+               "grid_any_rejected": 0, "not_judged": 0}
+    grid_runs = {}
     by_family = {}
     seed_status = {}
     for r in results:
@@ -1141,6 +1570,8 @@ def run(ctx):
         msgs |= r["msgs"]
         anomalies += r["anomalies"]
         by_family[r["spec"][0]] = by_family.get(r["spec"][0], 0) + r["run"]
+        if r["spec"][0] == "grid":
+            grid_runs[r["name"][5:]] = grid_runs.get(r["name"][5:], 0) + r["run"]
         if r["seed_outcomes"]:
             seed_status[r["name"]] = r["seed_outcomes"]
     if nrun == 0 or tot["accepted"] == 0 or tot["rejected"] == 0:
@@ -1148,6 +1579,9 @@ def run(ctx):
     if ctx.exhaustive and (by_family.get("num", 0) < 1000 or by_family.get("rep", 0) < 500 or by_family.get("rep2", 0) < 100
                            or rep_tot["rep_judged_valid"] < (by_family["rep"] + by_family["rep2"]) // 2):
         raise core.HarnessError("number / repetition dimension degenerate: %s %s" % (by_family, rep_tot))
+    if ctx.exhaustive and (grid_runs != grid_sizes or rep_tot["grid_valid"] < by_family["grid"] // 2 or rep_tot["grid_any"] < 100
+                           or rep_tot["grid_any_rejected"] < 50):
+        raise core.HarnessError("grid dimension degenerate: %s %s %s" % (grid_runs, grid_sizes, rep_tot))
     nvalid = sum(1 for s in seeds if s[1])
     invalid_accepted = sorted(n for n, st in seed_status.items() if n.startswith("i_") and st[0][1] == "E0")
 
@@ -1158,11 +1592,33 @@ def run(ctx):
         raise core.HarnessError("diagnostic site scan degenerate: %d sites, %d reached" % (len(fmts), len(reached)))
 
     # ---- crashes that disappear with 4x the memory are out-of-memory deaths; timeouts get 10x ----------
+    # deaths at the memory limit first: unbounded memory use or just a big input?  (one wide run at a time)
+    memx_groups = {}
+    for a in anomalies:
+        if a["cls"] == "signal" and a.get("memx"):
+            memx_groups.setdefault(signature(sym, dict(a, cls="memory-exhausted")), []).append(a)
+    memx_runs = memx_cases = 0
+    for k, psig in enumerate(sorted(memx_groups)):
+        group = sorted(memx_groups[psig], key=lambda a: (len(a["data"]), a["data"], a["opts"]))
+        verdicts = []
+        for j, a in enumerate(group[:MEMX_SAMPLES]):
+            if ctx.time_left() < CONFIRM_CPU_S + 60:
+                break                      # no time for the wide run: the death at the memory limit was observed all the same
+            verdicts.append(_memx_confirm((ctx.chibicc, runner, os.path.join(ctx.work, "mx%d_%d" % (k, j)), a["data"], a["opts"]))[2])
+            memx_runs += 1
+        if all(verdicts):
+            for a in group:
+                a["cls"] = "memory-exhausted"
+                memx_cases += 1
+        else:
+            for a in group:
+                a["memx"] = False          # judged like any other death (4x memory below)
+    ctx.cover(memory_exhausted_cases=memx_cases, memory_exhausted_wide_reruns=memx_runs)
     crash = [a for a in anomalies if a["cls"] == "signal" and "overflow=1" not in a["trace"]]
     conf = core.pmap(_confirm, [(ctx.chibicc, runner, os.path.join(ctx.work, "c%d" % i), a, CONFIRM_CPU_S,
                                  CONFIRM_WALL_S, MEM_MB * 4) for i, a in enumerate(crash)], nproc=4, chunksize=8)
     oom = 0
-    for a, (st, tr) in zip(crash, conf):
+    for a, (st, tr, rss) in zip(crash, conf):
         if st != a["status"]:
             a["oom"] = True
             oom += 1
@@ -1174,10 +1630,13 @@ def run(ctx):
                                  max(CONFIRM_CPU_S + 10, min(CONFIRM_WALL_S, int(ctx.time_left()) - 30)), MEM_MB)
                                 for i, a in enumerate(touts[:budget_cases])], nproc=16)
     confirmed_hang = {}
-    for a, (st, tr) in zip(touts[:budget_cases], conf):
+    for a, (st, tr, rss) in zip(touts[:budget_cases], conf):
         if st in ("S24", "S9"):            # consumed 10x the CPU limit: a hang, not a slow machine
             a["trace"] = tr or a["trace"]
             confirmed_hang[signature(sym, a)] = True
+            keep.append(a)
+        elif st[0] == "S" and mem_exhausted(rss, MEM_MB):
+            a["cls"], a["trace"], a["status"] = "memory-exhausted", tr or a["trace"], st     # ... and then memory ran out
             keep.append(a)
         else:
             unconfirmed += 1
@@ -1186,7 +1645,7 @@ def run(ctx):
             keep.append(a)
         else:
             unconfirmed += 1
-    anomalies = [a for a in anomalies if a["cls"] != "timeout"] + keep
+    anomalies = [a for a in anomalies if a["cls"] != "timeout" and not any(a is k for k in keep)] + keep
 
     # ---- report: smallest reproducer per signature -----------------------------------------------------
     aux = {f: open(os.path.join(SEEDS, "aux", f)).read() for f in sorted(os.listdir(os.path.join(SEEDS, "aux")))}
@@ -1194,7 +1653,7 @@ def run(ctx):
     # signature must be derived deterministically, so those cases are re-run alone until a stack is captured.
     retraced = lost = 0
     for k, a in enumerate(anomalies):
-        if a["cls"] == "signal" and not sym.frames(a["trace"]):
+        if a["cls"] in ("signal", "memory-exhausted") and not sym.frames(a["trace"]):
             tr = recapture_stack(sym, runner, ctx.chibicc, os.path.join(ctx.work, "retrace%d" % k), a["data"], a["opts"],
                                  a["status"])
             if tr:
@@ -1225,7 +1684,9 @@ def run(ctx):
     ctx.cover(evaluations=nrun, distinct_nontrivial=len(distinct), generated_variants=ngen,
               rule=("a case is one (input bytes, option list); non-trivial = its bytes differ from every other case "
                     "counted (64-bit content hash) - seeds themselves plus every deviation-1/2 token edit, numeric-value "
-                    "edit and byte edit that changes the seed, plus every repetition unit (family x n); each case is one real `chibicc -cc1` process judged by wait status, "
+                    "edit and byte edit that changes the seed, plus every repetition unit (family x n) and every grid unit "
+                    "(call_shapes: int^i double^d x tails over 12 argument types x return types; pp_selfref; pp_skipped_expr: "
+                    "contexts x expressions; atomic_ops: types x places x operations); each case is one real `chibicc -cc1` process judged by wait status, "
                     "stderr location and `as`"),
               number_positions=num_positions, number_alphabet_fixed=len(num_alphabet(tier, [])),
               number_alphabet_per_seed_min_max=[min(num_alpha_sizes), max(num_alpha_sizes)],
@@ -1236,6 +1697,15 @@ def run(ctx):
               repetition_units_accepted_or_confirmed_valid=rep_tot["rep_judged_valid"],
               repetition_units_rejected_beyond_c11_limit=rep_tot["rep_beyond_limit_rejected"],
               repetition_units_rejected_also_by_gcc=rep_tot["rep_ref_rejected"],
+              grid_families=grid_sizes, grid_units_valid_expected_accepted_or_confirmed=rep_tot["grid_valid"],
+              grid_units_no_acceptance_expected=rep_tot["grid_any"], grid_units_no_acceptance_expected_rejected=rep_tot["grid_any_rejected"],
+              grid_call_types=[t[0] for t in CALL_TYPES], grid_call_prefixes=len(CALL_PREFIX[tier]), grid_call_tail_max=3 if tier == "thorough" else 2,
+              grid_call_return_types=sorted(set(CALL_RET[tier] + ["s24"])),
+              grid_skipped_expr_contexts=len(SKIP_CONTEXTS), grid_skipped_expr_expressions=len(SKIP_EXPRS if tier == "thorough" else SKIP_EXPRS_QUICK),
+              grid_atomic_types=[t[0] for t in ATOMIC_TYPES if t[4] != "a"], grid_atomic_sizes=sorted(set(t[3] for t in ATOMIC_TYPES if t[4] != "a")),
+              resource_cases_not_judged=rep_tot["not_judged"],
+              resource_limits={"cpu_s": CPU_S, "mem_mb": MEM_MB, "first_stage_mem_mb": 256, "runs_above_first_stage": "one at a time (flock)", "heavy_max_per_item": HEAVY_MAX, "screen_cpu_s": SCREEN_CPU_S,
+                               "screen_mem_mb": SCREEN_MEM_MB, "memx_factor": MEMX_FACTOR},
               seeds_valid=nvalid, seeds_invalid=len(seeds) - nvalid, token_alphabet=len(alpha_idx),
               byte_alphabet=len(BYTE_ALPHABET[tier]), option_sets=len(OPTION_SETS), option_probes=len(OPTION_PROBES), driver_probes=driver_runs,
               runs_by_family=by_family, accepted=tot["accepted"], rejected_with_diagnostic=tot["rejected"],
@@ -1261,7 +1731,14 @@ def run(ctx):
     ctx.assume("inputs further than the stated deviations from the seed corpus are not explored; rejection of valid "
                "programs is judged only for the valid seeds (no verdict from gcc on edited programs)")
     ctx.assume("a diagnostic on line (last line + 1) is accepted as 'existing': chibicc places its EOF token there")
-    ctx.assume("RLIMIT_AS 2 GB / CPU 5 s per run; a first-pass timeout counts only if it persists with 10x limits")
+    ctx.assume("RLIMIT_AS 2 GB / CPU 5 s per run; a first-pass timeout counts only if it persists with 10x limits; a death at "
+               "the memory limit is `memory-exhausted` only if the smallest inputs of its class exhaust 2x the memory too")
+    ctx.assume("after %d timeouts / memory exhaustions inside one work item its remaining cases run with %d s / %d MB; cases "
+               "that hit those limits get no verdict (resource_cases_not_judged)" % (HEAVY_MAX, SCREEN_CPU_S, SCREEN_MEM_MB))
+    ctx.assume("grid units: atomic read-modify-write on objects that are not scalars of 1, 2, 4 or 8 bytes lies outside the "
+               "supported language (a located diagnostic is accepted there)")
+    fam = dict(GRID_FAMILIES)["call_shapes"](tier)
+    ctx.sample({"family": "call_shapes", "case": fam[len(fam) // 2][0], "unit": fam[len(fam) // 2][1]})
     ctx.assume("repetition units beyond the C11 5.2.4.1 minimum translation limit of the repeated construct may be "
                "rejected (with a located diagnostic); inside the limit a rejection counts only when gcc accepts the unit")
 
